@@ -43,6 +43,13 @@ def load_kani_units():
             if not m:
                 continue
             kv = parse_kv(m.group(1))
+            # the doc comment directly above the annotation states the contract in prose
+            doc = []
+            j = i - 1
+            while j >= 0 and (lines[j].strip().startswith("///") or lines[j].strip().startswith("//@ unit")):
+                if lines[j].strip().startswith("///"):
+                    doc.insert(0, lines[j].strip()[3:].strip())
+                j -= 1
             name = kv.get("name")
             if not name:
                 for j in range(i + 1, min(i + 12, len(lines))):
@@ -69,6 +76,7 @@ def load_kani_units():
                 "note": kv.get("note", ""),
                 "contract_of": kv.get("contract_of", ""),
                 "finding": kv.get("finding", ""),
+                "contract_text": " ".join(doc)[:700],
             }
             units.append(u)
     names = [u["harness"] for u in units]
